@@ -363,15 +363,18 @@ Section YamlTheorems.
                    (in_run w0 sch) (yinit w0 calls) sch).
     { intros p q E. rewrite (world_run (option yitem) (list nat) yls unit R nat). cbn [world init].
       unfold in_run, yenvs. rewrite E. unfold envs_in. rewrite flat_map_app. apply worlds_of_fold. }
+    assert (Hck : Forall (Forall (fun _ : unit => True)) calls).
+    { apply Forall_forall. intros l _. apply Forall_forall. auto. }
     pose proof (oinv_run (option yitem) (list nat) yls unit R nat yls_begin (yaml_prog table tree once) yret bump
                   (cache_valid table) (in_run w0 sch) (Qy table tree once (in_run w0 sch)) (Ry table tree once (in_run w0 sch))
-                  (qy_begin table tree once (in_run w0 sch)) (qy_acq table tree once (in_run w0 sch))
+                  (fun _ => True) (fun c _ => qy_begin table tree once (in_run w0 sch) c) (qy_acq table tree once (in_run w0 sch))
                   (qy_rel table tree once (in_run w0 sch)) (qy_step table tree once (in_run w0 sch))
                   (qy_end table tree once (in_run w0 sch)) sch _
                   (oinv_init (option yitem) (list nat) yls unit R (cache_valid table) (Qy table tree once (in_run w0 sch))
-                     (Ry table tree once (in_run w0 sch)) (yls_begin tt) None w0 calls (fun it H => ltac:(discriminate)))
+                     (Ry table tree once (in_run w0 sch)) (fun _ => True) (yls_begin tt) None w0 calls
+                     (fun it H => ltac:(discriminate)) Hck)
                   Hw) as [Ho Ht].
-    split; [exact Ho|]. intros t Hin. apply Ht. exact Hin.
+    split; [exact Ho|]. intros t Hin. destruct (Ht t Hin) as (_ & Hr & _). exact Hr.
   Qed.
 End YamlTheorems.
 
